@@ -294,7 +294,7 @@ func slowUpload(r *vh.Run, i int) {
 	srv := vh.New(vh.Conf(kind, root, pol))
 	defer srv.Close()
 	finalBody := (i/3)%2 == 0
-	wit := map[string]any{"trial": i, "store": kind.String(), "grace": grace.String(), "completing_put_carries_data": finalBody}
+	wit := map[string]any{"trial": i, "store": kind.String(), "grace": grace.String(), "completing_put_carries_data": finalBody, "completion_0.6_grace_after_last_chunk_collection_0.5_grace_later": (!finalBody && (i/6)%2 == 1)}
 	rs := vh.Do(srv, vh.Req{Method: "POST", URL: "/v2/q/blobs/uploads/"})
 	loc := rs.H.Get("Location")
 	if rs.Status != 202 || loc == "" {
@@ -316,9 +316,14 @@ func slowUpload(r *vh.Run, i int) {
 		}
 	}
 	var last []byte
+	lateCompletion := !finalBody && (i/6)%2 == 1
 	if finalBody {
 		last = []byte("the end")
 		content = append(content, last...)
+	} else if lateCompletion {
+		// the completing PUT carries no data and comes 0.6 x grace after the last chunk; the collection another
+		// 0.5 x grace later: 0.5 x grace after the upload was acknowledged, 1.1 x grace after its last byte was written
+		time.Sleep(grace * 6 / 10)
 	} else {
 		time.Sleep(grace / 3)
 	}
@@ -333,6 +338,9 @@ func slowUpload(r *vh.Run, i int) {
 		r.Count("slow_upload_not_established", 1)
 		return
 	}
+	if lateCompletion {
+		time.Sleep(grace / 2)
+	}
 	_ = srv.VerifGC(context.Background(), "q")
 	el := time.Since(t0)
 	r.Count("slow_upload_trials", 1)
@@ -345,7 +353,7 @@ func slowUpload(r *vh.Run, i int) {
 		wit["from_put_start_to_collection_end"] = el.String()
 		r.Violation("recent-upload-collected", fmt.Sprintf("an upload that took 1.3-1.6 x the grace period (%s) was completed (201) and a collection %s after the completing request started removed it: GET answers %d (%s store)", grace, el, g.Status, kind), wit)
 	}
-	r.Distinct("slow_upload_cells", fmt.Sprintf("%s/%v/%v", kind, finalBody, pol.Untagged))
+	r.Distinct("slow_upload_cells", fmt.Sprintf("%s/%v/%v/%v", kind, finalBody, lateCompletion, pol.Untagged))
 }
 
 // wildListing: a tagged image is also listed by a tagged index - under a media type that is no manifest type (a tool
